@@ -84,6 +84,7 @@ class Gen:
         self.whiles = []
         self.nmods = 0
         self.cur_mod = None
+        self.clocal_ids = []       # (id, module) of every captured local: its closure is also published in a global
 
     def id(self):
         self.nid += 1
@@ -111,8 +112,13 @@ class Gen:
             return ["setg"]
         if k < 60:
             return ["evg", self.id()]
-        if k < 64 and ctx.get("clocals"):
+        if k < 62 and ctx.get("clocals"):
             return ["cinc", self.id(), r.choice(ctx["clocals"])]
+        if k < 64:
+            here = [v for v, m_ in self.clocal_ids if m_ == self.cur_mod]
+            if here:
+                # call a closure that some (possibly already abandoned) scope published: its variable must still be there
+                return ["gcall", self.id(), r.choice(here)]
         if k < 68 and ctx["locals"]:
             return ["setl", r.choice(ctx["locals"])]
         if k < 80 and ctx["locals"]:
@@ -208,6 +214,7 @@ class Gen:
             c_b["locals"] = ctx["locals"] + [v]
             if captured:
                 c_b["clocals"] = ctx.get("clocals", []) + [v]
+                self.clocal_ids.append((v, self.cur_mod))
             inner = self.block(depth + 1, c_b, budget)
             return ["clocal" if captured else "local", v, inner]
         if k < 96:
@@ -272,7 +279,8 @@ def gen_nest(seed, feats=None):
         g.funcs.append({"how": "fn", "body": body, "mod": None})
         main = [["try", [["call", fi, g.id()], ["chk", g.site()], ["throw", g.id(), "s"]], [["evexc", g.id()]], None]] + main
     funcs = [f if f is not None else {"how": "fn", "body": [], "mod": None} for f in g.funcs]
-    return {"main": main, "funcs": funcs, "sites": g.sites, "whiles": g.whiles, "wrap": wrap, "nmods": g.nmods}
+    return {"main": main, "funcs": funcs, "sites": g.sites, "whiles": g.whiles, "wrap": wrap, "nmods": g.nmods,
+            "escapes": [[v, m_] for v, m_ in g.clocal_ids]}
 
 
 # ---- renderer -----------------------------------------------------------------------------------
@@ -389,9 +397,15 @@ def render_all(ir):
             emit("{", ind)
             emit("var l%d = %d;" % (st[1], st[1] * 7), ind + 1)
             emit("var inc%d = || { l%d = l%d + 1; return l%d; };" % (st[1], st[1], st[1], st[1]), ind + 1)
+            if any(v_ == st[1] for v_, _m in ir.get("escapes", [])):
+                emit("gesc%d = inc%d;" % (st[1], st[1]), ind + 1)
             block(st[2], ind + 1, dict(env, locals=env["locals"] + [st[1]], clocals=env.get("clocals", []) + [st[1]]))
             emit('print(("ev", %d, l%d, inc%d()));' % (st[1], st[1], st[1]), ind + 1)
             emit("}", ind)
+        elif k == "gcall":
+            if not any(v_ == st[2] and m_ == env["mod"] for v_, m_ in ir.get("escapes", [])):
+                raise RenderError("escaped closure not declared in this module")
+            emit('if gesc%d != nil { print(("ev", %d, gesc%d())); } else { print(("ev", %d, "unset")); }' % (st[2], st[1], st[2], st[1]), ind)
         elif k == "cinc":
             if st[2] not in env.get("clocals", []):
                 raise RenderError("captured local not visible")
@@ -453,6 +467,9 @@ def render_all(ir):
         out = []
         out.append(PRELUDE)
         emit("var gv = %d;" % gv_init(m), 0)
+        for v_, m_ in ir.get("escapes", []):
+            if m_ == m:
+                emit("var gesc%d = nil;" % v_, 0)
         for w in ir.get("whiles", []):
             emit("var w%d = 0;" % w, 0)
         emit_funcs(m)
@@ -460,6 +477,9 @@ def render_all(ir):
     out = []
     out.append(PRELUDE)
     emit("var gv = %d;" % gv_init(None), 0)
+    for v_, m_ in ir.get("escapes", []):
+        if m_ is None:
+            emit("var gesc%d = nil;" % v_, 0)
     for m in range(nmods):
         emit('import "mod%d";' % m, 0)
     for w in ir.get("whiles", []):
@@ -566,6 +586,7 @@ def model(ir, tape, faults):
     pend_ret = [0]
     probes = Stats()
     cur_ctx = ["body"]
+    escaped = {}        # id -> cell of the captured variable whose closure was published
     G = {None: [gv_init(None)]}
     for m_ in range(ir.get("nmods", 0)):
         G[m_] = [gv_init(m_)]
@@ -665,9 +686,17 @@ def model(ir, tape, faults):
             env2["locals"] = dict(env["locals"])
             cell = [st[1] * 7]
             env2["locals"][st[1]] = cell
+            escaped[st[1]] = cell
             block(st[2], env2)
             ev.append([num(st[1]), num(cell[0]), num(cell[0] + 1)])
             cell[0] += 1
+        elif k == "gcall":
+            if st[2] in escaped:
+                escaped[st[2]][0] += 1
+                probes.inc("published_closure_called")
+                ev.append([num(st[1]), num(escaped[st[2]][0])])
+            else:
+                ev.append([num(st[1]), s("unset")])
         elif k == "cinc":
             probes.inc("captured_local_bumped")
             env["locals"][st[2]][0] += 1
